@@ -99,6 +99,6 @@ impl Mw for Adapter {
         let fut = svc.call(req);
         let hit = log_len() == before; // the inner service logs `inner_call` from inside `call()`
         obs("hit", hit as u8);
-        Some(Box::pin(async move { render(fut.await) }))
+        Some(held(fut, render))
     }
 }
